@@ -66,12 +66,13 @@ theorem valid_replay (n : Nat) : ∀ (rs1 pre : Dendro α) (st : Dict (List Nat)
     CInv n pre st → validLoop n pre.length (rs1 ++ r :: rs2) (sizesOf st) = true →
     ∃ st1, mergeLoop n allRows pre.length rs1 st = .ok st1 ∧ CInv n (pre ++ rs1) st1 ∧
       RowOK n (pre ++ rs1) st1 r ∧
-      validLoop n (pre ++ rs1).length (r :: rs2) (sizesOf st1) = true := by
+      validLoop n (pre ++ rs1).length (r :: rs2) (sizesOf st1) = true ∧
+      st1.length + rs1.length = st.length := by
   intro rs1
   induction rs1 with
   | nil =>
     intro pre st r rs2 hinv hv
-    refine ⟨st, rfl, by simpa using hinv, ?_, by simpa using hv⟩
+    refine ⟨st, rfl, by simpa using hinv, ?_, by simpa using hv, by simp⟩
     simp only [List.nil_append] at hv
     unfold validLoop at hv
     simp only [get?_sizesOf] at hv
@@ -107,8 +108,10 @@ theorem valid_replay (n : Nat) : ∀ (rs1 pre : Dendro α) (st : Dict (List Nat)
         rw [hsz] at hrest
         have hl : (pre ++ [a]).length = pre.length + 1 := by simp
         rw [← hl] at hrest
-        obtain ⟨st1, h1, h2, h3, h4⟩ := ih (pre ++ [a]) _ r rs2 hm hrest
-        refine ⟨st1, ?_, by simpa using h2, by simpa using h3, by simpa using h4⟩
+        obtain ⟨st1, h1, h2, h3, h4, h5⟩ := ih (pre ++ [a]) _ r rs2 hm hrest
+        have h6 := length_merged hinv hi hj hne
+        refine ⟨st1, ?_, by simpa using h2, by simpa using h3, by simpa using h4,
+          by simp only [List.length_cons]; omega⟩
         unfold mergeLoop
         simp only [hi, hj, allRows, if_true, hne, if_false]
         rw [← hl]
@@ -117,13 +120,14 @@ theorem valid_replay (n : Nat) : ∀ (rs1 pre : Dendro α) (st : Dict (List Nat)
 /-- the state of the full replay just before a given row of a valid dendrogram -/
 theorem valid_at {n : Nat} {pre : Dendro α} {r : Row α} {rs : Dendro α}
     (hv : ValidDendro n (pre ++ r :: rs) = true) :
-    ∃ st, mergeLoop n allRows 0 pre (initCluster n) = .ok st ∧ CInv n pre st ∧ RowOK n pre st r := by
+    ∃ st, mergeLoop n allRows 0 pre (initCluster n) = .ok st ∧ CInv n pre st ∧ RowOK n pre st r ∧
+      st.length + pre.length = n := by
   unfold ValidDendro ValidDendroW at hv
   simp only [Bool.and_eq_true, List.length_replicate] at hv
   have h2 := hv.2
   rw [← sizesOf_initCluster] at h2
-  obtain ⟨st, h1, hc, hr, _⟩ := valid_replay n pre [] (initCluster n) r rs (cinv_init n) (by simpa using h2)
-  exact ⟨st, by simpa using h1, by simpa using hc, by simpa using hr⟩
+  obtain ⟨st, h1, hc, hr, _, hlen⟩ := valid_replay n pre [] (initCluster n) r rs (cinv_init n) (by simpa using h2)
+  exact ⟨st, by simpa using h1, by simpa using hc, by simpa using hr, by simpa [initCluster] using hlen⟩
 
 theorem valid_length {n : Nat} {D : Dendro α} (hv : ValidDendro n D = true) : D.length + 1 = n := by
   unfold ValidDendro ValidDendroW at hv
@@ -138,12 +142,34 @@ theorem valid_row {n : Nat} {pre : Dendro α} {r : Row α} {rs : Dendro α}
     leaves n (pre ++ r :: rs) (n + pre.length) =
       leaves n (pre ++ r :: rs) r.i ++ leaves n (pre ++ r :: rs) r.j ∧
     r.s = (leaves n (pre ++ r :: rs) (n + pre.length)).length := by
-  obtain ⟨st, _, hc, hr⟩ := valid_at hv
+  obtain ⟨st, _, hc, hr, _⟩ := valid_at hv
   have hi := hc.bound _ (Dict.get?_some_key_mem hr.ci)
   have hj := hc.bound _ (Dict.get?_some_key_mem hr.cj)
   have hl := leaves_row n pre r rs hi hj
   refine ⟨hi, hj, hr.ne, hl, ?_⟩
   rw [hl, List.length_append, leaves_append_lt n pre (r :: rs) hi, leaves_append_lt n pre (r :: rs) hj]
   exact hr.size
+
+
+/-- the size column of the last row of a valid dendrogram is the number of leaves -/
+theorem valid_last_size {n : Nat} {pre : Dendro α} {r : Row α} (hv : ValidDendro n (pre ++ [r]) = true) :
+    r.s = n := by
+  obtain ⟨st, _, hc, hr, hlen⟩ := valid_at hv
+  have hn := valid_length hv
+  simp only [List.length_append, List.length_cons, List.length_nil] at hn
+  -- two live clusters are left: the children of the last row
+  have p1 := perm_values_erase hc.nodup hr.ci
+  have hj' : (st.erase r.i).get? r.j = some (leaves n pre r.j) := by
+    rw [Dict.get?_erase]; simp [Ne.symm hr.ne, hr.cj]
+  have p2 := perm_values_erase (Dict.nodup_keys_erase hc.nodup r.i) hj'
+  have l1 := Dict.length_erase_of_mem hc.nodup (Dict.get?_some_key_mem hr.ci)
+  have l2 := Dict.length_erase_of_mem (Dict.nodup_keys_erase hc.nodup r.i) (Dict.get?_some_key_mem hj')
+  have hempty : (st.erase r.i).erase r.j = [] := List.eq_nil_of_length_eq_zero (by omega)
+  rw [hempty] at p2
+  simp only [Dict.values, List.map_nil, List.flatten_nil, List.append_nil] at p2
+  have := (p1.trans (List.Perm.append_left _ p2)).symm.trans hc.perm
+  have hl := this.length_eq
+  simp only [List.length_append, List.length_range] at hl
+  rw [hr.size]; exact hl
 
 end SkNet.Dendro
